@@ -16,6 +16,15 @@ from cnfgen.formula.basecnf import BaseCNF
 from cnfgen.formula.baseopb import BaseOPB
 
 
+def _within_comment(text, prefix):
+    """Keep a text with line breaks inside comment lines
+
+    Every line break in `text` is followed by the comment `prefix`, so
+    that no part of a header field or variable name is read as data."""
+    text = text.replace('\r\n', '\n').replace('\r', '\n')
+    return text.replace('\n', '\n' + prefix)
+
+
 def to_opb_file(formula, fileorname=None,
                 export_header=True,
                 export_varnames=False):
@@ -57,14 +66,16 @@ def to_opb_file(formula, fileorname=None,
     if export_header:
         # remove non ascii text
         for field in formula.header:
-            tmp = "* {}: {}\n".format(field, formula.header[field])
+            tmp = "* {}: {}".format(field, formula.header[field])
+            tmp = _within_comment(tmp, "* ") + "\n"
             tmp = tmp.encode('ascii', errors='replace').decode('ascii')
             output.write(tmp)
         output.write("*\n")
 
     if export_varnames:
         for varid, label in enumerate(formula.all_variable_labels(), start=1):
-            output.write("* varname x{0} {1}\n".format(varid, label))
+            tmp = "* varname x{0} {1}".format(varid, label)
+            output.write(_within_comment(tmp, "* ") + "\n")
         output.write("*\n")
 
     # Clauses
